@@ -253,3 +253,53 @@ Print Assumptions C05_repair_encrypted_intact_complete.
 Print Assumptions C05_repair_encrypted_max.
 Print Assumptions C05_repair_encrypted_monotone_partial.
 Print Assumptions C05_example_encrypted_intact.
+(* ====================================================================================
+   Compressed archives: the fail-safe decompression reader (model theories/CompFailSafe.v of
+   CompressionLayerFailSafeReader; brotli's streaming decoder enters as an abstract step
+   function under the explicit DecoderLaws of theories/CompFailSafeProofs.v, every one of
+   which the harness job c02-comp observes on the real decoder).  `run D fin bs w` packs a
+   decoder satisfying the laws, an inner source delivering the available bytes w in order
+   with any short reads, the client's read sizes (> 0) and fuel (2|w|+2 passes per read,
+   |plaintext|+1 reads); run_result is CompFailSafe.fs_read_all: everything delivered until
+   the first Ok(0) / error, and how it ended.  bs: the compressed blocks (c_i, p_i); tail:
+   the bytes that follow them (the SizesInfo footer), of which a fresh decoder makes nothing.
+   ==================================================================================== *)
+From MLA Require Import CompFailSafe CompFailSafeProofs CompFailSafeStep CompFailSafeThms CompFailSafeToy.
+
+(* more available bytes, more (or equal) output, whatever the sources, read sizes and
+   decoder emission schedules of the two runs (uses the law dl_D_mono) *)
+Theorem C05_fs_comp_monotone :
+  forall BLOCK FSBUF : N, 0 < FSBUF -> BLOCK < 2 ^ 32 ->
+  forall (D : bytes -> bytes) (fin : bytes -> bool) (tail : bytes), dead D fin tail ->
+  forall bs : list (bytes * bytes), Forall (good_block BLOCK D fin) bs ->
+  forall (w1 w2 : bytes) (r1 : run D fin bs w1) (r2 : run D fin bs w2),
+    prefix w1 w2 -> prefix w2 (wire_of tail bs) ->
+    prefix (fst (run_result BLOCK FSBUF D fin bs r1)) (fst (run_result BLOCK FSBUF D fin bs r2)).
+Proof. exact fs_comp_monotone. Qed.
+
+(* all blocks available (and any part of the footer): the whole plaintext *)
+Theorem C05_fs_comp_complete :
+  forall BLOCK FSBUF : N, 0 < FSBUF -> BLOCK < 2 ^ 32 ->
+  forall (D : bytes -> bytes) (fin : bytes -> bool) (tail : bytes), dead D fin tail ->
+  forall bs : list (bytes * bytes), Forall (good_block BLOCK D fin) bs ->
+  forall (t' : bytes) (r : run D fin bs (concat (map fst bs) ++ t')), prefix t' tail ->
+    exists e : res unit, run_result BLOCK FSBUF D fin bs r = (plain_of bs, e) /\ fs_end e.
+Proof. exact fs_comp_complete. Qed.
+
+(* non-vacuity (toy codec of CompFailSafeToy.v, BLOCK = 8, FSBUF = 4): every cut 0..26 *)
+Example C05_fs_comp_example :
+  map (fun n => len (fst (run_result 8 4 tD tfin fsx_bs (fsx_run (takeN n fsx_wire) [2] 2))))
+      [0; 1; 2; 8; 9; 10; 11; 17; 18; 19; 22; 23; 24; 26]
+    = [0; 0; 1; 7; 8; 8; 9; 15; 16; 16; 19; 20; 20; 20] /\
+  prefix (fst (run_result 8 4 tD tfin fsx_bs (fsx_run (takeN 11 fsx_wire) [2] 2)))
+         (fst (run_result 8 4 tD tfin fsx_bs (fsx_run (takeN 19 fsx_wire) [] 0))).
+Proof.
+  split; [vm_compute; reflexivity|].
+  apply (C05_fs_comp_monotone 8 4 ltac:(lia) ltac:(lia) tD tfin fsx_tail fsx_dead fsx_bs fsx_good).
+  - apply prefix_takeN_mono. lia.
+  - apply prefix_takeN.
+Qed.
+
+Print Assumptions C05_fs_comp_monotone.
+Print Assumptions C05_fs_comp_complete.
+Print Assumptions C05_fs_comp_example.
